@@ -4,6 +4,7 @@ package c11
 import (
 	"fmt"
 	"math"
+	"sync"
 	"sync/atomic"
 
 	"github.com/Trisia/randomness/detect"
@@ -257,6 +258,49 @@ func Run(ctx *common.Ctx) int {
 			})
 		}
 	}
+	// ---------- the decision boundary itself: for every length the histograms whose P-value is closest to 0.01 ----------
+	// V = 2^m/N * SS - N takes one value per sum of squares SS of the pattern counts; for each length the two (four)
+	// reachable SS next to the critical one are realised: P just above and just below 0.01 (a decision taken on a
+	// rounded critical value, a truncated statistic or a float32 comparison differs exactly there)
+	var critLens []int
+	for L := 40; L <= 4096; L++ {
+		critLens = append(critLens, L)
+	}
+	var nearest int64
+	worstGap := 0.0
+	var gmu sync.Mutex
+	common.ParFor(len(critLens), func(li int) {
+		L := critLens[li]
+		m := mStar(8 * L)
+		N := 8 * L / m
+		k := 1 << uint(m)
+		vc := critical(k - 1)
+		target := (vc + float64(N)) * float64(N) / float64(k)
+		base := int(math.Floor(target))
+		for _, ss := range []int{base - 2, base - 1, base, base + 1, base + 2, base + 3} {
+			if (ss-N)%2 != 0 {
+				continue
+			}
+			h := histWithSS(N, k, ss)
+			if h == nil {
+				continue
+			}
+			data := fromHist(h, m, L, 1)
+			p, _ := refmodel.Poker(refmodel.Bits(data), m)
+			gmu.Lock()
+			if d := math.Abs(p - 0.01); d > worstGap && d < 1e-3 {
+				worstGap = d
+			}
+			gmu.Unlock()
+			atomic.AddInt64(&nearest, 1)
+			s.one(data, func() interface{} {
+				return map[string]interface{}{"bytes": L, "m_expected": m, "sum_of_squares_of_pattern_counts": ss, "critical_sum_of_squares": target}
+			})
+		}
+		s.distinct.Add(fmt.Sprint("critical ", L))
+	})
+	samples = append(samples, map[string]interface{}{"family": "decision boundary", "lengths": fmt.Sprintf("%d lengths in 40..4096 bytes", len(critLens)), "cases": nearest,
+		"rule": "per length the reachable sums of squares next to the one where P = 0.01 (both sides)", "largest_|P-0.01|_among_them": worstGap})
 	samples = append(samples, map[string]interface{}{"family": "m=4 / m=8 regimes", "bytes": []int{40, 41, 100, 1279, 1280, 1281, 2000, 4096}, "cases": "from the uniform histogram, t blocks moved from classes 1..k to class 0 for every feasible t (k in {1,3,7,2^m-1}), two block arrangements: P crosses 0.01 for the right m at a different t than for a wrong m"})
 	cov := common.Coverage{
 		"evaluations":         int(s.evals),
@@ -273,6 +317,81 @@ func Run(ctx *common.Ctx) int {
 }
 
 // fromHist2 realises a histogram of 2-bit patterns as L bytes (patterns in ascending order).
+// critical returns the chi-square value with Q(df/2, v/2) = 0.01 (bisection on the reference Q).
+func critical(df int) float64 {
+	lo, hi := 0.0, 2000.0
+	for i := 0; i < 200; i++ {
+		mid := (lo + hi) / 2
+		if refmodel.QBig(df, mid/2) > 0.01 {
+			lo = mid
+		} else {
+			hi = mid
+		}
+	}
+	return (lo + hi) / 2
+}
+
+// histWithSS builds counts of k classes summing to N whose squares sum to ss (nil if the greedy search fails):
+// from the flat histogram, single blocks are moved between classes; a move from a class holding b blocks to one
+// holding a >= b-1 adds 2(a-b+1).
+func histWithSS(N, k, ss int) []int {
+	h := make([]int, k)
+	for i := 0; i < N; i++ {
+		h[i%k]++
+	}
+	cur := 0
+	for _, c := range h {
+		cur += c * c
+	}
+	for steps := 0; cur < ss && steps < 100000; steps++ {
+		rem := ss - cur
+		bi, bj, best := -1, -1, 0
+		// candidates for the receiving class: the three fullest ones; for the giving class: every class
+		top := []int{0, 0, 0}
+		for t := range top {
+			top[t] = -1
+			for i := range h {
+				if (top[t] < 0 || h[i] > h[top[t]]) && (t < 1 || i != top[0]) && (t < 2 || i != top[1]) {
+					top[t] = i
+				}
+			}
+		}
+		for _, i := range top {
+			for j := range h {
+				if j == i || h[j] == 0 {
+					continue
+				}
+				if d := 2 * (h[i] - h[j] + 1); d > best && d <= rem {
+					bi, bj, best = i, j, d
+				}
+			}
+		}
+		if bi < 0 {
+			// the receivers tried are too full for the small remainder: any pair of equal classes adds exactly 2
+			for i := range h {
+				for j := i + 1; j < len(h) && bi < 0; j++ {
+					if h[i] == h[j] && h[i] > 0 && rem >= 2 {
+						bi, bj, best = i, j, 2
+					}
+				}
+				if bi >= 0 {
+					break
+				}
+			}
+		}
+		if bi < 0 {
+			return nil
+		}
+		h[bi]++
+		h[bj]--
+		cur += best
+	}
+	if cur != ss {
+		return nil
+	}
+	return h
+}
+
 func fromHist2(h []int, L int) []byte { return fromHist(h, 2, L, 0) }
 
 // fromHist realises a histogram of m-bit patterns (m in 2,4,8) as L bytes; arrangement 0 = ascending, 1 = interleaved.
